@@ -342,7 +342,7 @@ def check(run):
              'non-trivial = the data has a multi-byte character, or the offset / count is at a boundary '
              '(offset >= length, count = 0, offset+count >= length, usize::MAX), or it is a random history',
         assumptions=['data length + total argument length < 2^64 (memory bound of the Rust process)',
-                     'arguments storable in the node kind per XML 1.0 [14] [15] [20] (DOM Level 1 is silent otherwise)',
+                     'calls whose RESULTING data are storable in the node kind per XML 1.0 [14] [15] [20] (DOM Level 1 is silent otherwise; since the repairs D39/D46 the code validates the result of every edit, not the inserted fragment)',
                      'the node is a child of an element (split_text); tree navigation itself belongs to C12/C13'])
 
 def replay(path):
